@@ -61,13 +61,20 @@ def observe_job(job):
             [[unname(e.origin.step.name), unname(e.dependent.step.name)] for e in node.in_edges],
             [[unname(e.origin.step.name), unname(e.dependent.step.name)] for e in node.out_edges],
         ])
-    return [
-        "ok",
-        nodes,
-        outcome(lambda: g.max_indegree),
-        outcome(lambda: g.max_outdegree),
-        outcome(lambda: [unname(s.name) for s in g.topo_sorted()]),
-    ]
+    def topo():
+        l = g.topo_sorted()
+        names = [unname(s.name) for s in l]
+        l.reverse()          # the caller owns the list it was given: the next call must not notice
+        del l[:1]
+        return names
+
+    first = [outcome(lambda: g.max_indegree), outcome(lambda: g.max_outdegree), outcome(topo)]
+    # the graph object answers the same question the same way every time (a failed call leaves nothing behind)
+    for rep in range(2):
+        again = [outcome(lambda: g.max_indegree), outcome(lambda: g.max_outdegree), outcome(topo)]
+        if again != first:
+            return ["unstable", f"call {rep + 2} on the same graph object", first, again]
+    return ["ok", nodes] + first
 
 
 def hand_job(steps):
